@@ -29,6 +29,58 @@ type c20env struct {
 	timeout  time.Duration
 	pullOpen int64
 	baseline kit.Counters
+	// verdicts are decided by state, not by how fast the machine is: a wait that expires is extended (60 s, far beyond
+	// the sum of all handshake timeouts) before the state it waited for is judged missing; after two such long waits
+	// have ended in a verdict the extension is dropped for the rest of the shard (the violation is established)
+	longFails int64
+	slowWaits int64
+	retries   int64
+}
+
+func (e *c20env) extra() time.Duration {
+	if atomic.LoadInt64(&e.longFails) >= 2 {
+		return 0
+	}
+	return 60 * time.Second
+}
+
+func (e *c20env) await(cond func() bool, base time.Duration) bool {
+	if waitUntil(cond, base) {
+		return true
+	}
+	if x := e.extra(); x > 0 && waitUntil(cond, x) {
+		atomic.AddInt64(&e.slowWaits, 1)
+		return true
+	}
+	atomic.AddInt64(&e.longFails, 1)
+	return false
+}
+
+func (e *c20env) awaitOutcome(ch chan c20outcome, base time.Duration) (c20outcome, bool) {
+	select {
+	case o := <-ch:
+		return o, true
+	case <-time.After(base):
+	}
+	if x := e.extra(); x > 0 {
+		select {
+		case o := <-ch:
+			atomic.AddInt64(&e.slowWaits, 1)
+			return o, true
+		case <-time.After(x):
+		}
+	}
+	atomic.AddInt64(&e.longFails, 1)
+	return c20outcome{}, false
+}
+
+// c20ConnLevel: the connection ended before the server produced any response. The multiplexed listener gives a new
+// connection NetTimeout/3 (400 ms here) to show its first bytes; on a loaded machine the accepting goroutine can be
+// scheduled later than that although the request was sent at once. The request never reached a service, so it is
+// simply sent again; a server that keeps dropping the request still ends as an error outcome.
+func c20ConnLevel(err error) bool {
+	s := err.Error()
+	return strings.Contains(s, "EOF") || strings.Contains(s, "connection reset") || strings.Contains(s, "broken pipe")
 }
 
 type c20outcome struct {
@@ -41,12 +93,20 @@ type c20outcome struct {
 func (e *c20env) requesterFLV(path string, until <-chan struct{}) chan c20outcome {
 	ch := make(chan c20outcome, 1)
 	go func() {
-		req, _ := http.NewRequest("GET", "http://"+e.srv.Addr+"/streams"+path+".flv", nil)
-		cl := &http.Client{}
-		resp, err := cl.Do(req)
-		if err != nil {
-			ch <- c20outcome{kind: "error:" + err.Error()}
-			return
+		var resp *http.Response
+		for try := 0; ; try++ {
+			req, _ := http.NewRequest("GET", "http://"+e.srv.Addr+"/streams"+path+".flv", nil)
+			cl := &http.Client{}
+			var err error
+			if resp, err = cl.Do(req); err == nil {
+				break
+			}
+			if try >= 3 || !c20ConnLevel(err) {
+				ch <- c20outcome{kind: "error:" + err.Error()}
+				return
+			}
+			atomic.AddInt64(&e.retries, 1)
+			time.Sleep(100 * time.Millisecond)
 		}
 		defer resp.Body.Close()
 		if resp.StatusCode == 404 {
@@ -139,7 +199,7 @@ func (e *c20env) requesterRTSP(path string, until <-chan struct{}) chan c20outco
 
 func (e *c20env) clean(cam *kit.FakeCam, path string) (bool, string) {
 	var what string
-	ok := waitUntil(func() bool {
+	ok := e.await(func() bool {
 		k := kit.Snapshot()
 		switch {
 		case media.Get(path) != nil:
@@ -217,6 +277,8 @@ func runC20(c *kit.Ctx) {
 		}
 		c20Concurrent(e, sh, ci)
 	}
+	c.Count("waits_extended_beyond_base_watchdog_then_satisfied", atomic.LoadInt64(&e.slowWaits))
+	c.Count("requests_resent_after_connection_closed_before_any_response", atomic.LoadInt64(&e.retries))
 }
 
 func c20Run(e *c20env, sh string, n int, sc kit.CamScript, requester, name string) {
@@ -250,10 +312,8 @@ func c20Run(e *c20env, sh string, n int, sc kit.CamScript, requester, name strin
 	c.Distinct(name)
 	c.SetAdd("scripts", fmt.Sprintf("%s/%s", sc.FaultStep, sc.Fault))
 	success := sc.FaultStep == "PLAYING"
-	var out c20outcome
-	select {
-	case out = <-ch:
-	case <-time.After(6*e.timeout + 4*time.Second):
+	out, answered := e.awaitOutcome(ch, 6*e.timeout+4*time.Second)
+	if !answered {
 		// state decides: is a pull handshake goroutine parked in a network read long after NetTimeout?
 		parked := 0
 		for _, g := range kit.Goroutines() {
@@ -335,7 +395,7 @@ func c20Run(e *c20env, sh string, n int, sc kit.CamScript, requester, name strin
 				detail["second_outcome"] = o2.kind
 				c.Violation(fmt.Sprintf("C20:later-request-did-not-reach-camera:%s/%s", sc.FaultStep, sc.Fault), detail)
 			}
-		case <-time.After(6*e.timeout + 4*time.Second):
+		case <-time.After(6*e.timeout + 64*time.Second):
 			c.Inconclusive("second request not finished within watchdog: " + name)
 		}
 		close(until2)
@@ -400,15 +460,14 @@ func c20Concurrent(e *c20env, sh string, ci int) {
 	cam.Close()
 	released := 0
 	for _, ch := range chans {
-		select {
-		case o := <-ch:
+		if o, answered := e.awaitOutcome(ch, 6*e.timeout+4*time.Second); answered {
 			if o.kind == "ok" || o.kind == "closed" || o.kind == "notfound" {
 				released++
 			} else {
 				detail["outcome"] = o.kind
 				c.Violation("C20:concurrent-first-requests:requester-outcome", detail)
 			}
-		case <-time.After(6*e.timeout + 4*time.Second):
+		} else {
 			detail["released"] = released
 			detail["open_pull_goroutines"] = atomic.LoadInt64(&e.pullOpen)
 			c.Violation("C20:concurrent-first-requests:requester-not-released-after-camera-disconnect", detail)
